@@ -251,8 +251,9 @@ func Gen(seed uint64, focus string) *Scenario {
 	if focus == "C12" || r.Chance(1, 8) {
 		sc.CloseAfter = r.Range(0, n)
 	}
-	if focus == "SYNC" {
+	if focus == "SYNC" || (focus == "C01" && r.Chance(1, 6)) || (focus == "C04" && r.Chance(1, 8)) {
 		sc.Sync = true
+		sc.CloseAfter = -1
 	}
 	if focus == "C16" || r.Chance(1, 6) {
 		// broker latency with tight limits: batches accumulate while a request is in flight
@@ -712,6 +713,33 @@ func Check(res *Result) []Fail {
 				}
 				add(sig, "message %d has no terminal event (closed=%v)", id, res.ClosedOK)
 				break
+			}
+		}
+	}
+	if sc.Sync {
+		// SyncProducer: what SendMessage / SendMessages returned for a message must be the terminal event of that
+		// very message (success ⇔ a returnSuccesses event for its id, error ⇔ a returnError event for its id)
+		evSucc, evErr := map[int]int{}, map[int]int{}
+		for _, e := range res.Events {
+			if e.Kind == "ret.succ" {
+				evSucc[e.ID]++
+			}
+			if e.Kind == "ret.err" || e.Kind == "d.reject" {
+				evErr[e.ID]++
+			}
+		}
+		for _, o := range res.Outcomes {
+			if !submitted[o.ID] {
+				continue
+			}
+			if o.Ok && (evSucc[o.ID] != 1 || evErr[o.ID] != 0) {
+				add("C01:sync-return-is-not-own-outcome", "SendMessage(s) reported success for message %d; its events: %d success, %d error", o.ID, evSucc[o.ID], evErr[o.ID])
+			}
+			if !o.Ok && (evErr[o.ID] != 1 || evSucc[o.ID] != 0) && !strings.Contains(o.Err, "verif:") {
+				add("C01:sync-return-is-not-own-outcome", "SendMessage(s) reported error %q for message %d; its events: %d success, %d error", o.Err, o.ID, evSucc[o.ID], evErr[o.ID])
+			}
+			if strings.Contains(o.Err, "verif:") {
+				add("C04:sync-return-values-differ-from-message", "message %d: %s", o.ID, o.Err)
 			}
 		}
 	}
